@@ -258,7 +258,7 @@ MUTATORS = ("set", "add", "replace", "append", "prepend", "cas", "delete", "incr
 
 def run_history(case):
     kind, cfg, steps = case["kind"], case["cfg"], case["steps"]
-    env = Env(cas_start=cfg.get("cas_start", 0))
+    env = Env(cas_start=cfg.get("cas_start", 0), **({"now": cfg["now"]} if cfg.get("now") is not None else {}))
     clock = env.clock
     skw = {}
     if cfg.get("serde") == "pickle":
@@ -570,7 +570,25 @@ def _drop_none_noreply(case):
     return case
 
 
+def soak_cases(tier, seed):
+    """long lives: thousands of calls on one object (what a long-running process does in a minute), and clocks far from today's -
+    a wall clock just before and after 2**31 and 2**32 seconds, and one that reads almost nothing"""
+    n = 2500 if tier == "quick" else 20000
+    for ki, kind in enumerate(("client", "pooled", "hash", "hash-pooled")):
+        for now in (None, 2 ** 31 - 40, 2 ** 32 - 40, 4 * 10 ** 9, 0.5):
+            x = (seed * 7919 + ki * 104729 + int((now or 0) % 1000) + 1) & 0x7FFFFFFF
+            steps = []
+            for i in range(n if now is None else n // 5):
+                x = (x * 1103515245 + 12345) & 0x7FFFFFFF
+                if (x >> 8) % 23 == 0:
+                    steps.append({"op": "advance", "seconds": (1, 2, 3, 30, 61)[(x >> 16) % 5]})
+                else:
+                    steps.append(ALPHA[(x >> 16) % len(ALPHA)])
+            yield {"kind": kind, "cfg": {"key_prefix": b"" if ki % 2 else b"soak:", "default_noreply": bool(ki // 2), "now": now}, "steps": steps}
+
+
 PARTS = [
+    Part("long-lives", "enum", check, cases=soak_cases, shards={"quick": 8, "thorough": 16}),
     Part("exhaustive-short", "enum", check, cases=exhaustive_cases, exhaustive=True, minimise=minimise),
     Part("random-histories", "hyp", check, strategy=lambda tier: history_strategy(tier).map(_drop_none_noreply),
          examples={"quick": 500, "thorough": 15000}, shards={"quick": 6, "thorough": 16}),
